@@ -297,16 +297,23 @@ def run_client(case):
 
 def run_server(case):
     """case: a (float instant), values (list of grpc-timeout header values), dur (float), fin,
-    cancel ('h' | ('s', extra, fin)), trailers_first.  Returns the observation dict."""
+    cancel ('h' | ('s', extra, fin)), trailers_first, card ('UU'|'US'|'SU'|'SS'), reply ('direct' |
+    'listener': a SendTrailingMetadata listener that really awaits | 'paused': the transport is paused
+    when the request arrives and resumed `resume` seconds later, so that the reply's send_headers waits
+    for write_ready).  Returns the observation dict."""
+    from grpclib.events import listen, SendTrailingMetadata
     a, values, dur = case['a'], case['values'], case['dur']
     fin, cancel, tf = case['fin'], case['cancel'], case.get('trailers_first', False)
+    card, reply = case.get('card', 'SS'), case.get('reply', 'direct')
     span = case.get('span', 7000.0)
     obs = {'started': None, 'cancel_at': None, 'cancels': 0, 'status': None, 'status_at': None,
-           'second_cancel': False}
+           'second_cancel': False, 'listener_calls': 0}
     with vloop.session() as loop:
         loop._vtime = a
 
-        def finish(kind):
+        async def finish(stream, kind):
+            if kind == 'ret' and card[1] == 'U' and not tf:
+                await stream.send_message(b'r')
             if kind == 'other':
                 raise ValueError('handler failed')
             if kind == 'grpc':
@@ -319,6 +326,8 @@ def run_server(case):
             if a >= 2.0 ** 23:
                 return      # asyncio cannot fire timers up there (time() + 1e-9 == time()): never sleep
             if tf:
+                if card[1] == 'U':
+                    await stream.send_message(b'r')     # a unary reply needs its message before OK trailers
                 await stream.send_trailing_metadata()
             try:
                 await asyncio.sleep(dur)
@@ -332,13 +341,22 @@ def run_server(case):
                 except asyncio.CancelledError:
                     obs['second_cancel'] = True
                     raise
-                finish(cancel[2])
+                await finish(stream, cancel[2])
                 return
-            finish(fin)
+            await finish(stream, fin)
 
-        se = wire.ServerEnd(loop, [Service('v.S', {'M': (handler, 'SS')})], tap=True)
+        se = wire.ServerEnd(loop, [Service('v.S', {'M': (handler, card)})], tap=True)
+        if reply == 'listener':
+            async def on_trailers(event):
+                obs['listener_calls'] += 1
+                await asyncio.sleep(0)          # a listener that really suspends
+            listen(se.server, SendTrailingMetadata, on_trailers)
         loop.run_quiet(0)
         sid = se.peer.request(P.REQ_HEADERS + [('grpc-timeout', v) for v in values])
+        if reply == 'paused':
+            se.transport.pause()
+            obs['stop1'] = loop.run_quiet(case.get('resume', 1.0))
+            se.transport.resume()
         obs['stop'] = loop.run_quiet(span)
         for fr in se.taps[-1].frames:
             if fr.type == 'HEADERS' and fr.stream_id == sid:
